@@ -192,6 +192,15 @@ class Facts:
         ps = pat_s(pat)
         et = tm.term(expr, scope)
         if pat['k'] == 'TupleStruct' and pat['path']['s'] == 'Some':
+            # Some(_) = (if let P = S { Some(a) } else { None })  <=>  S matches P
+            if isinstance(et, tuple) and et[0] == 'iflet' and et[4] == ('None',) and isinstance(et[3], tuple) and et[3][0] == 'Some':
+                head = et[1].split('(')[0].split(' ')[0]
+                if head == 'Some':
+                    return ('some', et[2], pol)
+                if head.startswith('Fields::'):
+                    return ('shape', et[2], head.split('::')[1], pol)
+                if '::' in head:
+                    return ('is', et[2], head, pol)
             return ('some', et, pol)
         if pat['k'] in ('Path', 'Ident') and ps == 'None':
             return ('some', et, not pol)
